@@ -7,7 +7,7 @@ namespace Drx.LinkFlow
 open Drx Drx.Lscr
 
 theorem simpleCode_spec {c : Node} (h : simpleCode c = true) :
-    c.cls ≠ .jz ∧ c.cls ≠ .jump ∧ c.cls ≠ .ifThen ∧ c.cls ≠ .repeat_ := by
+    c.cls ≠ .jz ∧ c.cls ≠ .jump ∧ c.cls ≠ .ifThen ∧ c.cls ≠ .repeat_ ∧ c.cls ≠ .tell := by
   simpa [simpleCode, and_assoc] using h
 
 theorem wfs_cons {x : P} {ps : List P} : P.wfs (x :: ps) = true ↔ x.wf = true ∧ P.wfs ps = true := by
@@ -73,7 +73,7 @@ theorem EmitInv.mono {lo hi lo' hi' p : Int} {c : Node} (h : EmitInv lo hi p c) 
   ⟨by have := h.1; omega, by have := h.2.1; omega, h.2.2.1, h.2.2.2.1, fun jp ja e => by have := h.2.2.2.2 jp ja e; omega⟩
 
 theorem emitInv_simple {lo hi p : Int} {c : Node} (h1 : lo ≤ p) (h2 : p < hi) (hc : simpleCode c = true) : EmitInv lo hi p c := by
-  obtain ⟨a, b, c', d⟩ := simpleCode_spec hc
+  obtain ⟨a, b, c', d, _⟩ := simpleCode_spec hc
   refine ⟨h1, h2, c', ?_, ?_⟩
   · intro jp cd a' e; subst e; exact absurd rfl a
   · intro jp ja e; subst e; exact absurd rfl b
@@ -150,7 +150,7 @@ theorem tgtC_ne_nil (o : Int) : (ps : List P) → P.nsts ps ≠ 0 → tgtC o ps 
 theorem tgtC1_inv (o : Int) : (x : P) → x.wf = true → AllS (TgtInv o (o + x.size)) (tgtC1 o x)
   | .simple s, h => by
     obtain ⟨h1, h2⟩ := wf_simple.1 h
-    obtain ⟨a, b, c', d⟩ := simpleCode_spec h2
+    obtain ⟨a, b, c', d, _⟩ := simpleCode_spec h2
     simp only [tgtC1, P.size]
     refine AllS.cons ⟨by omega, by omega, a, b, ?_⟩ AllS.nil
     intro q cd a' b' e; rw [e] at c'; exact absurd rfl c'
@@ -291,14 +291,14 @@ theorem cdDepthL_append (a b : List Node) : cdDepthL (a ++ b) = max (cdDepthL a)
 theorem cdDepth_jzStmt (p : Int) (c : Node) (a : Int) : cdDepth (jzStmt p c a) = 0 := by simp [jzStmt, cdDepth]
 theorem cdDepth_jumpStmt (p a : Int) : cdDepth (jumpStmt p a) = 0 := by simp [jumpStmt, cdDepth]
 
-theorem cdDepth_simple (p : Int) (c : Node) (h : c.cls ≠ .repeat_) : cdDepth (.stmt p c) = 0 := by
-  cases c <;> first | (exact absurd rfl h) | simp [cdDepth]
+theorem cdDepth_simple (p : Int) (c : Node) (h : c.cls ≠ .repeat_) (h' : c.cls ≠ .tell) : cdDepth (.stmt p c) = 0 := by
+  cases c <;> first | (exact absurd rfl h) | (exact absurd rfl h') | simp [cdDepth]
 
 mutual
 theorem emit1_depth (o : Int) : (x : P) → x.wf = true → cdDepthL (emit1 false o x) = x.depth
   | .simple s, h => by
     obtain ⟨_, h2⟩ := wf_simple.1 h
-    simp [emit1, cdDepthL, P.depth, cdDepth_simple _ _ (simpleCode_spec h2).2.2.2]
+    simp [emit1, cdDepthL, P.depth, cdDepth_simple _ _ (simpleCode_spec h2).2.2.2.1 (simpleCode_spec h2).2.2.2.2]
   | .skip _, _ => by simp [emit1, cdDepthL, P.depth]
   | .ifThen csz cond t e, h => by
     obtain ⟨ht, he, _⟩ := wf_if.1 h
